@@ -404,5 +404,9 @@ class SED(object):
         apertures[np.log10(sed_wav) < log10_ap_interp.x[0]] = 10. ** log10_ap_interp.y[0]
         apertures[np.log10(sed_wav) > log10_ap_interp.x[-1]] = 10. ** log10_ap_interp.y[-1]
 
+        # The log10/10** round trip can move an aperture that is exactly the
+        # smallest or largest tabulated one just outside the table
+        apertures = np.clip(apertures, sed_apertures.min(), sed_apertures.max())
+
         # Interpolate and return only diagonal elements
         return flux_interp(apertures).diagonal()
